@@ -10,6 +10,8 @@ func init() {
 		Assume:  []string{"the codec's encoding of the reply is not verified", "third-party plugins are outside the analysed program"},
 		Run: func(c *Ctx) {
 			ruleV4Filter(c, "C11.V4.FILTER")
+			ruleRecvWhole(c, "C11.V4.RECV-WHOLE", "*listener4")
+			ruleChainShared(c, "C11.CHAIN.SHARED") // the reply is what the configured plugins made of the stub: nothing else sits in the listener's chain
 			ruleV4TypeMap(c, "C11.V4.TYPEMAP")
 			ruleV4Stub(c, "C11.V4.STUB")
 			ruleV4IdentityRO(c, "C11.V4.IDENTITY-RO")
@@ -31,6 +33,8 @@ func init() {
 		Assume:  []string{"per-layer mirroring of link/peer address and Interface-ID is NewRelayReplFromRelayForw's job (codec, trusted)", "transaction id / client id echo is NewReplyFromMessage's / NewAdvertiseFromSolicit's job (codec, trusted)"},
 		Run: func(c *Ctx) {
 			ruleV6(c, "C12.")
+			ruleRecvWhole(c, "C12.V6.RECV-WHOLE", "*listener6")
+			ruleChainShared(c, "C12.CHAIN.SHARED") // the reply is what the configured plugins made of the stub: nothing else sits in the listener's chain
 			if h := analyseHandle6(c); h != nil {
 				reportDispatch(c, "C12.V6.DISPATCH", h.di)
 				ruleSentIsChainResult(c, "C12.V6.SENT-IS-CHAIN-RESULT", h.fn, h.di)
@@ -62,6 +66,18 @@ func init() {
 			}
 			ruleChainShared(c, "C13.CHAIN.SHARED")
 			ruleRetNil(c, "C13.CHAIN.RETNIL", ro)
+			// "a plugin without a setup for the protocol is skipped": the loader and whatever wraps the
+			// registered setups never call an absent (nil) setup function
+			if lp := c.P.Func("plugins", "", "LoadPlugins"); lp != nil {
+				pred, reach := ReachFirstParty(c.P, []*ssa.Function{lp})
+				var fns []*ssa.Function
+				for _, f := range reach {
+					if closureRoot(f).Pkg == lp.Pkg {
+						fns = append(fns, f)
+					}
+				}
+				runSafety(c, "C13.LOAD.", fns, pred, "NILPATH", "NILSRC", "FUNCNIL")
+			}
 			c.R.Floor("C13.CHAIN.LOAD", 2)
 			c.R.Floor("C13.CHAIN.PARSE-ORDER", 1)
 			c.R.Floor("C13.CHAIN.DISPATCH", 2)
@@ -80,6 +96,7 @@ func init() {
 			ro := FindRoots(c.P, c.R)
 			ruleServerID(c, "C14.")
 			ruleSIDInit(c, "C14.SID.INIT", ro)
+			ruleSIDOwner(c, "C14.SID.OWNER")
 			c.R.Floor("C14.SID.V6-MATRIX", 2)
 			c.R.Floor("C14.SID.V4-DROP", 1)
 			c.R.Floor("C14.SID.V4-STAMP", 1)
@@ -92,6 +109,8 @@ func init() {
 		Trusted: trustedBase,
 		Assume:  []string{"wire encoding of options (codec)", "value equality with the arguments beyond provenance is not decided"},
 		Run: func(c *Ctx) {
+			rulePoolRetain(c, "C17.POOL.NO-RETAIN") // an emitted option must not share storage that is recycled
+			ruleChainLoad(c, "C17.CHAIN.LOAD")      // the configured values reach the plugin: every setup is called with its own item's arguments
 			ruleOptions(c, "C17.")
 			c.R.Floor("C17.OPT.GATE", 15)
 			c.R.Floor("C17.OPT.CODE-AGREE", 15)
